@@ -246,7 +246,8 @@ class World:
                 if p in exclude:
                     continue
                 try:
-                    os.utime(p, (PIN_MTIME, PIN_MTIME), follow_symlinks=False)
+                    t = PIN_MTIME - 1000 if p in getattr(self, "older", ()) else PIN_MTIME      # files that keep an older time stamp than their neighbours
+                    os.utime(p, (t, t), follow_symlinks=False)
                 except OSError:
                     pass
         os.utime(self.base, (PIN_MTIME, PIN_MTIME))
@@ -373,3 +374,9 @@ class World:
 
     def destroy(self):
         shutil.rmtree(self.base, ignore_errors=True)
+        shutil.rmtree(self.base + "-aux", ignore_errors=True)
+
+    def aux_path(self, name):
+        """a place for the harness' own input files (pattern files): outside the observed tree"""
+        os.makedirs(self.base + "-aux", exist_ok=True)
+        return os.path.join(self.base + "-aux", name)
